@@ -334,6 +334,8 @@ class Ev:
                             an = alt[1].rsplit("::", 1)[-1]
                             if an == vname or (want is not None and VARIANT_INDEX.get(an) == want and an in VARIANT_INDEX):
                                 alts.append(alt)
+                        elif alt[0] == "call" and strip_generics(alt[1]).split("::")[-1] == "from_residual" and vname in ("Ok", "Continue", "Some"):
+                            pass        # `x?` that failed: FromResidual builds the failure variant, never the one matched here
                         else:
                             unknown = True
                     if not unknown and len(alts) == 1:
